@@ -443,9 +443,9 @@ fn gen_len_in(rng: &mut Rng, b: Option<&LengthValidation>, budget: usize, deviat
         return if lo > 0 && rng.bool() { lo - 1 } else { hi.saturating_add(1).min(40) };
     }
     let want = match rng.below(8) {
-        0 => lo,
-        1 => hi.min(lo + 6),
-        2 => 0,
+        0 | 1 => lo,
+        2 | 3 => if hi <= 45 { hi } else { lo + 6 },
+        4 => 0,
         _ => rng.range(0, 4) as usize,
     };
     let w = want.max(lo).min(hi);
@@ -635,7 +635,7 @@ impl<'a> VGen<'a> {
             if dv {
                 return Some(if rng.bool() { lo.wrapping_sub(1) } else { hi.wrapping_add(1) });
             }
-            Some(match rng.below(4) {
+            Some(match rng.below(3) {
                 0 => lo,
                 1 => hi,
                 _ => lo + (rng.below(((hi - lo).min(1000) + 1) as u64) as i128),
